@@ -80,7 +80,13 @@ def replay_file(path):
         prop = api.REGISTRY.props[data["property"]]
         for name, fn, opts in prop.ground + prop.bounded:
             if name == data["harness"]:
-                gen = fn(data.get("tier", "quick")) if data["kind"] == "ground" else \
+                if opts.get("chunks"):
+                    import itertools
+                    gen = itertools.chain.from_iterable(
+                        fn(data.get("tier", "quick"), k, opts["chunks"]) for k in range(opts["chunks"]))
+                else:
+                    gen = None
+                gen = gen if gen is not None else fn(data.get("tier", "quick")) if data["kind"] == "ground" else \
                     fn(random.Random(data.get("seed", 0)), data.get("tier", "quick"))
                 for item in gen:
                     if repr(item[0]) == data["label"]:
